@@ -3573,22 +3573,19 @@ class State:
         ):
             self._end_dealing()
         elif not any(self.standing_pat_or_discarding_statuses):
-            if (
-                    Automation.CARD_BURNING in self.automations
-                    and self.card_burning_status
+            if self.card_burning_status:
+                if Automation.CARD_BURNING in self.automations:
+                    self.burn_card()
+            elif (
+                    Automation.HOLE_DEALING in self.automations
+                    and any(self.hole_dealing_statuses)
             ):
-                self.burn_card()
-
-            if not self.card_burning_status:
-                if Automation.HOLE_DEALING in self.automations:
-                    while any(self.hole_dealing_statuses):
-                        self.deal_hole()
-
-                if (
-                        Automation.BOARD_DEALING in self.automations
-                        and any(self.board_dealing_counts)
-                ):
-                    self.deal_board()
+                self.deal_hole()
+            elif (
+                    Automation.BOARD_DEALING in self.automations
+                    and any(self.board_dealing_counts)
+            ):
+                self.deal_board()
 
     def _end_dealing(self) -> None:
         assert not self.card_burning_status
